@@ -1,5 +1,6 @@
 import TpmProofs.PumpFacts
 import TpmProofs.DecodeOk
+import TpmProofs.Modes
 /-!
 # C07 — warn mode and strict mode agree up to the first problem
 -/
@@ -100,5 +101,75 @@ where
           rintro ⟨rfl, _⟩ p t x hval
           simp at hval
       · exact ih _ _ _ _ h
+
+/-! ## whole runs: every layout, every top (type / command / response / stream), EVERY input -/
+
+/-- **strict succeeds ⇒ warn mode does exactly the same**: whenever the strict walker finishes without an error (the
+input is then accepted, or reported as superfluous, or a stream ends cleanly), the warn-mode run is identical — the
+same events with the same pull counts, the same outcome, no warning -/
+theorem c07_strict_ok (tb : MsgTables) (top : Top) (x : List Byte) (v : Val) (t : St)
+    (h : runWalker true tb top x = .ok (v, t)) : marshalRun false tb top x = marshalRun true tb top x := by
+  have hrel := runWalker_mrel tb top x
+  rw [h] at hrel
+  simp only [MRel] at hrel
+  simp only [marshalRun, h, hrel]
+
+/-- **up to the first problem**: if strict mode raises a constraint error `e` after the trace `t.out`, then warn mode
+either raises the very same error in the same state (the two errors it cannot continue after: a command code without
+layouts, a selector without union member) or its trace is `t.out`, then — for a value error — the offending event,
+then the warning carrying exactly `e`, then whatever follows.  `t.out` contains no warning (`c07_strict_no_warning`),
+so that warning is warn mode's first. -/
+theorem c07_first_problem (tb : MsgTables) (top : Top) (x : List Byte) (e : Err) (t : St)
+    (h : runWalker true tb top x = .error (e, t)) (hp : e.isProblem = true) :
+    runWalker false tb top x = .error (e, t) ∨ FirstW e t (stOf (runWalker false tb top x)).out := by
+  have hrel := runWalker_mrel tb top x
+  rw [h] at hrel
+  simp only [MRel] at hrel
+  rcases hrel with hrel | ⟨_, hrel⟩
+  · exact Or.inl hrel
+  · exact Or.inr hrel
+
+/-- strict mode's other ways to stop — input depleted, internal error — are warn mode's too, in the same state -/
+theorem c07_same_stop (tb : MsgTables) (top : Top) (x : List Byte) (e : Err) (t : St)
+    (h : runWalker true tb top x = .error (e, t)) (hp : e.isProblem = false) :
+    runWalker false tb top x = .error (e, t) := by
+  have hrel := runWalker_mrel tb top x
+  rw [h] at hrel
+  simp only [MRel] at hrel
+  rcases hrel with hrel | ⟨hp', _⟩
+  · exact hrel
+  · rw [hp] at hp'; cases hp'
+
+/-- strict mode never emits a warning -/
+theorem c07_strict_no_warning (tb : MsgTables) (top : Top) (x : List Byte) :
+    ∀ ke ∈ (stOf (runWalker true tb top x)).out, ke.2.isMarshal = true := runWalker_nw tb top x
+
+/-- **no warning ⇒ strict accepts**: if the warn-mode walker finishes without an error and its trace contains no
+warning, the strict walker finishes with the same result -/
+theorem c07_no_warning (tb : MsgTables) (top : Top) (x : List Byte) (v : Val) (t : St)
+    (h : runWalker false tb top x = .ok (v, t)) (hnw : ∀ ke ∈ t.out, ke.2.isMarshal = true) :
+    runWalker true tb top x = .ok (v, t) := by
+  have hrel := runWalker_mrel tb top x
+  cases hs : runWalker true tb top x with
+  | ok vs =>
+    obtain ⟨v', t'⟩ := vs
+    rw [hs] at hrel
+    simp only [MRel] at hrel
+    rw [h] at hrel
+    exact hrel.symm ▸ rfl
+  | error es =>
+    obtain ⟨e, t'⟩ := es
+    rw [hs] at hrel
+    simp only [MRel] at hrel
+    rcases hrel with hrel | ⟨_, hw⟩
+    · rw [h] at hrel; cases hrel
+    · rw [h] at hw
+      simp only [stOf] at hw
+      exfalso
+      rcases hw with ⟨rest, hw⟩ | ⟨ev, xx, rest, hw, _, _⟩
+      · have := hnw (t'.pos, .warning e) (by rw [hw]; simp)
+        simp [Event.isMarshal] at this
+      · have := hnw (t'.pos, .warning e) (by rw [hw]; simp)
+        simp [Event.isMarshal] at this
 
 end C07
